@@ -44,8 +44,28 @@ func classifyErr(v ssa.Value, at ssa.Instruction, assume map[ssa.Value]bool, dep
 		return classifyErr(x.X, at, assume, depth+1)
 	case *ssa.Phi:
 		k := errKind(-1)
-		for _, e := range x.Edges {
+		for ei, e := range x.Edges {
 			ek := classifyErr(e, at, assume, depth+1)
+			if ek == errUnknown && ei < len(x.Block().Preds) {
+				// the value is observed when control leaves predecessor ei towards the phi's block:
+				// if that very edge is the non-nil (nil) edge of a nil check of e, the kind is known.
+				pred := x.Block().Preds[ei]
+				for si, sb := range pred.Succs {
+					if sb != x.Block() {
+						continue
+					}
+					for _, ne := range nilCheckEdges(e, false) {
+						if ne.From == pred && ne.Succ == si {
+							ek = errNonNil
+						}
+					}
+					for _, ne := range nilCheckEdges(e, true) {
+						if ne.From == pred && ne.Succ == si {
+							ek = errNil
+						}
+					}
+				}
+			}
 			if k == -1 {
 				k = ek
 			} else if k != ek {
@@ -211,6 +231,9 @@ func reachingStore(ld *ssa.UnOp) (st *ssa.Store, clobbered bool) {
 					return x, clobbered
 				}
 			case *ssa.RunDefers:
+				if preDeferMode {
+					continue
+				}
 				switch deferEffectOn(ld.Parent(), ld.X) {
 				case 2:
 					return nil, true
@@ -229,6 +252,10 @@ func reachingStore(ld *ssa.UnOp) (st *ssa.Store, clobbered bool) {
 }
 
 var deferEffectMemo = map[ssa.Value]int{}
+
+// preDeferMode: classify the error a return statement hands to the deferred calls (the function body's own verdict),
+// ignoring what deferred closures may do to the named result afterwards.
+var preDeferMode = false
 
 // deferEffectOn: 0 = deferred closures of fn never store to cell; 1 = they only store joins with the old
 // value or certainly non-nil errors (nil may become non-nil, non-nil stays non-nil); 2 = they may clear it.
@@ -329,6 +356,7 @@ func returnErrKind(ret *ssa.Return) (errKind, bool) {
 type Pred struct {
 	Calls     []string // callee refs (objRef / FuncID for closures); suffix match on "…" not supported: exact
 	Deep      bool     // also calls to subject functions that on every non-error path pass a call in Calls (always-summary)
+	BodyVerdict bool   // classify returns by the value the body returns, before deferred closures modify the named result
 	NilReturn bool     // Return whose error result may be nil (nil or unknown); for functions without error result: every Return
 	ErrReturn bool     // Return whose error result may be non-nil (non-nil or unknown)
 	Where     func(ssa.Instruction) bool
@@ -467,7 +495,11 @@ func (pd Pred) match(i ssa.Instruction) bool {
 		if !pd.NilReturn && !pd.ErrReturn {
 			return pd.Where != nil && len(pd.Calls) == 0
 		}
+		if pd.BodyVerdict {
+			preDeferMode = true
+		}
 		k, has := returnErrKind(ret)
+		preDeferMode = false
 		if !has {
 			return pd.NilReturn
 		}
